@@ -30,6 +30,7 @@ func checkC03(c *Ctx) {
 	c.Rule("C03/R4", "exponent range check: in the decimal-to-bits conversion every increase of the binary exponent is followed, before the bits are assembled, by the test against the format's exponent limit (otherwise out-of-range text yields a silent Inf/garbage instead of a range error)")
 
 	c.Rule("C03/R11", "the slow path's decimal starts from the zero value: every (*decimal).set is called on a decimal allocated in the calling function")
+	c.Rule("C03/R14", "adding a digit is checked for wrap-around: in ParseUint the sum that flows back into the accumulator is compared with the accumulator itself")
 	c.Rule("C03/R13", "the decimal point sits after all digits read, kept or dropped: in readFloat's scanning loop the point position is assigned only the count of all digits (variables found by name; no claim if renamed)")
 	c.Rule("C03/R12", "a sign is not a number: where Atoi's fast path strips a leading sign by re-slicing from 1, the remainder's length is tested and the empty remainder returns an error")
 	c.Rule("C03/R10", "a dropped mantissa digit counts as truncation only if it is not zero: in readFloat the truncation flag becomes true only where the digit is known to differ from '0' (or is a hexadecimal letter)")
@@ -52,6 +53,7 @@ func checkC03(c *Ctx) {
 	c03FreshDecimal(c, p)
 	c03SignAlone(c, p)
 	c03PointPosition(c, p)
+	c03WrapDetected(c, p)
 	if c.Tier == "thorough" {
 		if c.override == nil {
 			c03Drift(c, p)
